@@ -52,7 +52,9 @@ Inductive obs := OU (n : N) | OF (bits : N).            (* Observation::Unsigned
 Inductive vcall :=                                      (* what a Value does with its ValueWriter *)
 | VNone                                                 (* nothing (absent Option) *)
 | VString (s : bytes)
-| VMetric (o : obs) (u : N)                             (* one observation, unit code (0 = Unit::None) *)
+| VMetric (o : obs) (u : N) (dims : list (bytes * bytes)) (forced : bool)
+                                                        (* one observation, unit code (0 = Unit::None), dimensions,
+                                                           whether the ForceFlag test option is set *)
 | VInvalid.                                             (* ValueWriter::error *)
 
 Inductive item :=                                       (* calls on the EntryWriter *)
@@ -64,7 +66,7 @@ Inductive item :=                                       (* calls on the EntryWri
    can never be mistaken for covered. *)
 Definition attach (u : N) (v : vcall) : vcall :=
   match v with
-  | VMetric o u0 => if (u0 =? 0) || (u0 =? u) then VMetric o u else VInvalid
+  | VMetric o u0 d f => if (u0 =? 0) || (u0 =? u) then VMetric o u d f else VInvalid
   | VString _ => VInvalid                               (* "can't apply a unit to a string value" *)
   | VNone => VNone
   | VInvalid => VInvalid
@@ -72,16 +74,35 @@ Definition attach (u : N) (v : vcall) : vcall :=
 Definition attach_opt (u : option N) (v : vcall) : vcall :=
   match u with None => v | Some u => attach u v end.
 
+(* the value wrappers of metrique-writer-core that close_value_impls.rs lets through #[metrics]:
+   WithDimensions<V, N> appends its dimensions to a metric's (strings are left alone), ForceFlag<V, F> merges its
+   flag into a metric's flags (merging two set flags panics: the generator never nests ForceFlag). *)
+Inductive wrapper := WDims (ds : list (bytes * bytes)) | WForced.
+Definition wrap_value (w : wrapper) (v : vcall) : vcall :=
+  match v, w with
+  | VMetric o u d f, WDims ds => VMetric o u (d ++ ds) f
+  | VMetric o u d f, WForced => VMetric o u d true
+  | _, _ => v
+  end.
+Definition wrap_item (w : wrapper) (it : item) : item :=
+  match it with
+  | ITimestamp t => ITimestamp t
+  | IValue n b v => IValue n b (wrap_value w v)
+  end.
+
 Section Naming.
 Variables pascal snake kebab : bytes -> bytes.          (* the Inflector crate *)
-(* Which revision of the code is modelled.  Two independent repairs, one flag each, each consulted in exactly
+(* Which revision of the code is modelled.  Three independent repairs, one flag each, each consulted in exactly
    one place:
      fixed_tag — the enum tag's four per-style names ([tag_names]): false = the code as found, true = after the
                  repository's `fix:` commit (the state the correspondence runs against);
      fixed_sg  — the namespace a flattened child's sample_group() gets ([flatten_sg_ns]): false = the code as it
                  is (as found AND now: the repair needs two insta snapshots regenerated, so it is delivered as a
-                 known finding), true = the proposed repair (docs/C07-sample-group-repair.patch). *)
-Variables fixed_tag fixed_sg : bool.
+                 known finding), true = the proposed repair (docs/C07-sample-group-repair.patch);
+     fixed_wrap — whether `InflectableEntry for WithDimensions<T, N> / ForceFlag<T, F>` forward sample_group()
+                 ([sg_field], flatten of a wrapped child): false = as found (the trait's default: nothing), true =
+                 after the repository's second `fix:` commit. *)
+Variables fixed_tag fixed_sg fixed_wrap : bool.
 
 (* ---------------------------------------------------------------- inflect.rs *)
 Definition apply (s : style) (x : bytes) : bytes :=     (* NameStyle::apply *)
@@ -143,16 +164,18 @@ Inductive leaf :=
 | LStr (s : bytes)                                       (* &'static str, String *)
 | LEnum (ra : style) (vs : list (bytes * option bytes)) (i : nat)   (* #[metrics(value(string))] enum, variant i *)
 | LVal (unit : option N) (inner : leaf)                  (* #[metrics(value)] newtype; unit declared on its field *)
-| LOpt (present : bool) (inner : leaf).                  (* Option<T> *)
+| LOpt (present : bool) (inner : leaf)                   (* Option<T> *)
+| LWrap (w : wrapper) (inner : leaf).                    (* WithDimensions<T, N> / ForceFlag<T, F> *)
 
 Fixpoint leaf_call (l : leaf) : vcall :=
   match l with
-  | LNum o u => VMetric o u
+  | LNum o u => VMetric o u [] false
   | LStr s => VString s
   | LEnum ra vs i => let v := nth i vs ([], None) in VString (variant_name ra (snd v) (fst v))
   | LVal u inner => attach_opt u (leaf_call inner)
   | LOpt true inner => leaf_call inner
   | LOpt false _ => VNone
+  | LWrap w inner => wrap_value w (leaf_call inner)
   end.
 (* SampleGroup::as_sample_group *)
 Fixpoint leaf_sg (l : leaf) : bytes :=
@@ -163,7 +186,8 @@ Fixpoint leaf_sg (l : leaf) : bytes :=
   | _ => []
   end.
 
-Inductive optmode := Plain | OptSome | OptNone.          (* flatten of Child / Some(child) / None::<Child> *)
+(* flatten of Child / Some(child) / None::<Child> / WithDimensions<Child, N> / ForceFlag<Child, F> *)
+Inductive optmode := Plain | OptSome | OptNone | Wrapped (w : wrapper).
 Record tag := Tag { tg_exact : bool; tg_name : bytes; tg_sg : bool }.
 
 Inductive edef :=
@@ -230,6 +254,7 @@ with op_field (ra : style) (pfx : option prefix) (id : bytes) (k : fkind) (n : n
   | KFlatten p o d =>
       match o with
       | OptNone => []
+      | Wrapped w => map (wrap_item w) (op_write d (append_to p (make_ns ra n)))   (* the EntryWriter wrappers *)
       | _ => op_write d (append_to p (make_ns ra n))
       end
   | KFlattenEntry raw _ => map (fun nv => IValue (fst nv) true (snd nv)) raw
@@ -275,6 +300,7 @@ with sg_field (ra : style) (pfx : option prefix) (id : bytes) (k : fkind) (n : n
   | KFlatten p o d =>
       match o with
       | OptNone => []
+      | Wrapped _ => if fixed_wrap then op_sg d (flatten_sg_ns p (make_ns ra n)) else []
       | _ => op_sg d (flatten_sg_ns p (make_ns ra n))
       end
   | KFlattenEntry _ rawsg => rawsg
